@@ -92,6 +92,12 @@ let walk_full : M.page_obs option ref = ref None
 let walk_mode = ref 0 (* 0 none, 1 collecting pages, 2 next list is the full listing *)
 let walk_max = ref 0
 
+let ew_pages : M.n list list list ref = ref []
+let ew_pre : M.n list list list ref = ref []
+let ew_full : (M.n list list * M.n list list) option ref = ref None
+let ew_mode = ref 0
+let ew_limit = ref 0
+
 let parse_cfg (s : string) =
   let get k = List.exists (fun kv -> kv = k ^ "=1") (String.split_on_char ',' s) in
   { M.cfg_auto_bucket = get "auto"; cfg_versioned = get "versioned"; cfg_pages = get "pages";
@@ -125,6 +131,16 @@ let parse_hop (f : string array) : M.hop =
   | "list" ->
     let d = if f.(5) = "-" then None else (match bytes_of_hex f.(5) with [c] -> Some c | _ -> failwith "multi-byte delimiter") in
     M.HList (h 3, h 4, d, h 6, bool_of_field f.(7), z_of_int (int_of_string f.(8)), bool_of_field f.(9))
+  | "init" -> M.HInitiate (h 3, h 4, List.map pair_of (split_on ',' f.(5)))
+  | "part" -> M.HUploadPart (h 3, h 4, h 5, z_of_int (int_of_string f.(6)), h 7)
+  | "done" -> M.HComplete (h 3, h 4, h 5, List.map (fun p -> match String.split_on_char ':' p with
+      | [n; e] -> (z_of_int (int_of_string n), bytes_of_hex (if e = "" then "-" else e))
+      | _ -> failwith "bad part") (split_on ',' f.(6)))
+  | "abort" -> M.HAbort (h 3, h 4, h 5)
+  | "lsp" -> M.HListParts (h 3, h 4, h 5, z_of_int (int_of_string f.(6)), z_of_int (int_of_string f.(7)))
+  | "lsu" ->
+    let d = if f.(5) = "-" then None else (match bytes_of_hex f.(5) with [c] -> Some c | _ -> failwith "multi-byte delimiter") in
+    M.HListUploads (h 3, h 4, d, h 6, h 7, z_of_int (int_of_string f.(8)))
   | k -> failwith ("unknown op " ^ k)
 
 let split_tags (l : M.n list list) =
@@ -144,6 +160,7 @@ let verdict_tagged lineno (l : M.n list list) =
 let hist lineno (f : string array) =
   match f.(1) with
   | "H" ->
+    ew_mode := 0;
     hist_cfg := parse_cfg f.(3);
     let pre = if Array.length f > 4 then List.map bytes_of_hex (split_on ',' f.(4)) else [] in
     hist_state := List.fold_left (fun hs b ->
@@ -156,11 +173,25 @@ let hist lineno (f : string array) =
     let (st', l) = M.hist_step md5 !hist_cfg !hist_state o ob in
     hist_state := st';
     (match o with
+     | (M.HListParts _ | M.HListUploads _) when !ew_mode > 0 ->
+       (* entry identity: key/part-number + id string *)
+       let ents = List.map (fun (k, (_, e)) -> (match o with M.HListParts _ -> k | _ -> k @ [ntab.(0)] @ e)) ob.M.ob_contents in
+       if !ew_mode = 2 then (ew_full := Some (ents, ob.M.ob_names); ew_mode := 1)
+       else (ew_pages := !ew_pages @ [ents]; ew_pre := !ew_pre @ [ob.M.ob_names])
      | M.HList _ when !walk_mode > 0 ->
        let pg = { M.pg_keys = List.map fst ob.M.ob_contents; pg_prefixes = ob.M.ob_names; pg_truncated = ob.M.ob_truncated } in
        if !walk_mode = 2 then (walk_full := Some pg; walk_mode := 1) else walk_pages := !walk_pages @ [pg]
      | _ -> ());
     verdict_tagged lineno l
+  | "PB" -> ew_mode := 1; ew_pages := []; ew_pre := []; ew_full := None; ew_limit := int_of_string f.(2); print_string "SKIP\n"
+  | "PF" -> ew_mode := 2; print_string "SKIP\n"
+  | "PE" ->
+    let (full, fpre) = (match !ew_full with Some p -> p | None -> ([], [])) in
+    let r = M.entries_walk_check (z_of_int !ew_limit) !ew_pages !ew_pre full fpre (bool_of_field f.(2)) in
+    ew_mode := 0;
+    let strs = List.map string_of_bytes r in
+    if strs = [] then print_string "OK\n"
+    else Printf.printf "FAIL\t%d\tmodel=-\tspec=%s\n" lineno (String.concat "," strs)
   | "WB" -> walk_mode := 1; walk_pages := []; walk_full := None; walk_max := int_of_string f.(2); print_string "SKIP\n"
   | "WF" -> walk_mode := 2; print_string "SKIP\n"
   | "WE" ->
@@ -182,7 +213,7 @@ let () =
       (match f.(0) with
        | "c11" -> c11 !lineno f
        | "c17" -> c17 !lineno f
-       | "c01" | "c02" | "c03" | "c04" | "c05" | "c10" | "c13" -> hist !lineno f
+       | "c01" | "c02" | "c03" | "c04" | "c05" | "c06" | "c08" | "c10" | "c13" | "c14" | "c15" -> hist !lineno f
        | "#" -> print_string "OK\n"
        | k -> failwith ("unknown case kind " ^ k))
     done
